@@ -96,7 +96,9 @@ ExtraSet ==
 XmlOK(e) == ("xml" \notin Fmts) \/ (e[1] \notin {"label", "foreignref", "foreigntime"})
             \/ (e[1] = "label" /\ e[2] \in {"str", "empty", "lang", "none", "nasty", "nastylang"})
 (* FinalOp = "Export" (C13): Fmts is the set of exporters; every ordered pair and a triple repetition *)
+(* ... and a-b-a: the same export before and after another one                                   *)
 ExportSeqs == {<<a, b>> : a \in Fmts, b \in Fmts} \cup {<<a, a, a>> : a \in Fmts}
+              \cup {<<a, b, a>> : a \in Fmts \ {"eq", "eqother", "hash"}, b \in Fmts \ {"hash"}}
 (* FinalOp = "Dot" (C15): every combination of the display options; Opts = directions *)
 DotFinal == {[op |-> "Dot", h |-> "d1",
               opts |-> [nary |-> a, labels |-> b, elattrs |-> c, relattrs |-> d, dir |-> o]]
@@ -270,7 +272,11 @@ GraphActs ==
     GR("association", <<>>, << <<"activity", Rf(Y)>>, <<"agent", Rf(X)>>, <<"plan", Rf(Z)>> >>, <<>>),
     GR("influence", <<>>, << <<"influencee", Rf(X)>>, <<"influencer", Rf(Y)>> >>, <<>>),
     GR("membership", <<>>, << <<"collection", Rf(X)>>, <<"entity", Rf(Y)>> >>, <<>>),
-    GR("specialization", <<>>, << <<"specificEntity", Rf(X)>>, <<"generalEntity", Rf(Z)>> >>, <<>>) }
+    GR("specialization", <<>>, << <<"specificEntity", Rf(X)>>, <<"generalEntity", Rf(Z)>> >>, <<>>),
+    \* an endpoint is missing although a LATER qualified-name argument is present: still no edge
+    GR("association", <<>>, << <<"activity", Rf(Y)>>, <<"plan", Rf(Z)>> >>, <<>>),
+    GR("start", <<>>, << <<"activity", Rf(Y)>>, <<"starter", Rf(X)>> >>, <<>>),
+    GR("delegation", <<>>, << <<"responsible", Rf(X)>>, <<"activity", Rf(Y)>> >>, <<>>) }
 
 DefaultOK(a) == IF a.op = "SetDefault" THEN ms.mgr[MgrOf(ms, a.h)].dflt \in {NONE, a.u} ELSE TRUE
 
